@@ -4,49 +4,78 @@ from translators import tr_c07
 PID = "C07"
 CLAIM = True
 MANIFEST_TEXT = ("Lean 4 theorems for all process counts, lengths, displacements and typemaps: a transfer with a "
-                 "datatype moves exactly the typemap's blocks (arrays stride by the extent); the datatype built for "
-                 "IndexPair is exactly {global index, attribute}, for pairs/FieldVector/bigunsignedint all members; "
-                 "gatherv with prefix-sum displacements is the concatenation in rank order and scatterv inverts it; "
-                 "every reduction tree over any permutation equals the rank-order fold for associative-commutative "
-                 "ops; the sequential stand-in equals the one-process specification for each of its 16 collectives; "
-                 "MPIPack round-trips every sequence of static / size-prefixed / nested items and its growth rule "
-                 "leaves room for what MPI_Pack writes.  Each run executes the real Communication<MPI_Comm>, "
-                 "Communication<No_Comm>, MPIPack, send/recv/rrecv and MPITraits datatypes on 1-4 (thorough 1-7) "
-                 "ranks for 12 element types and compares them with the model and with an oracle computed from the "
+                 "datatype moves exactly the typemap's blocks (arrays stride by the extent, which the resize step makes "
+                 "sizeof for pair/IndexPair/ParallelLocalIndex whatever the members are); struct/contiguous/resized "
+                 "compose for arbitrarily nested members; the datatype built for IndexPair is exactly {global index, "
+                 "attribute}, for pairs/FieldVector/bigunsignedint all members; the ComposeMPITraits / ComposeMPIOp "
+                 "tables of the current sources map every C++ type / functor to the handle the MPI standard defines for "
+                 "it and user functors are registered as non-commutative with the operand order MPI prescribes; "
+                 "gather(v)/allgather(v) are the concatenation in rank order (gatherv for any displacement layout: "
+                 "the covering segment wins, other cells untouched), scatter(v) hands out the chunks and inverts "
+                 "gather(v), broadcast leaves the root's buffer everywhere, stated for every rank; allreduce is, element "
+                 "by element, any reduction tree over any permutation (associative-commutative ops) resp. any bracketing "
+                 "in rank order (merely associative user functors) = the rank-order fold; the sequential stand-in, as "
+                 "re-translated body by body from the current communication.hh, equals the one-process specification for "
+                 "each of its collectives (on the communicated cells for partially communicated types), is rank 0 of 1 and "
+                 "refuses point-to-point calls; MPIPack round-trips every sequence of static / size-prefixed / nested "
+                 "items and its growth rule leaves room for what MPI_Pack writes; receive with size discovery returns "
+                 "the sent elements with the sent length in every ring.  Each run executes the real "
+                 "Communication<MPI_Comm>, Communication<No_Comm>, MPIPack, send/recv/rrecv (with and without status) and "
+                 "MPITraits datatypes on 1-4 (thorough 1-7) ranks for 25 element types (all intrinsic types of "
+                 "mpitraits.hh, byte-fallback types, padded and nested pairs, FieldVector of pairs, bigunsignedint<96/40>, "
+                 "IndexPair, ParallelLocalIndex) and compares them with the model and with an oracle computed from the "
                  "op line.")
-MANIFEST_NOTE = ("Partial: MPI itself is trusted (a transfer moves the typemap's blocks; reductions with a commutative "
-                 "op fold in some order and bracketing; MPI_Unpack inverts MPI_Pack; reliable pairwise-FIFO delivery) "
-                 "- these appear as definitions (transfer, Spec.*, Codec).  The theorems are about the wrapper logic "
-                 "and the message-level specification; model fidelity rests on the differential runs (P<=7, lengths "
-                 "<=5).  The sequential stand-in copies whole objects where MPI copies only the communicated members "
-                 "(IndexPair, ParallelLocalIndex): agreement is claimed and checked on the communicated state.")
-TECHNIQUE = "Lean 4 proof over cell-level model of typemaps, collectives and MPIPack + MPI differential correspondence with a fold oracle"
+MANIFEST_NOTE = ("Partial: MPI itself is trusted (a transfer moves the typemap's blocks; reductions fold in some order and "
+                 "bracketing for commutative ops, in rank order with some bracketing for non-commutative ones; MPI_Unpack "
+                 "inverts MPI_Pack; reliable pairwise-FIFO delivery) - these appear as definitions (transfer, Spec.*, Codec, "
+                 "Tree).  The theorems are about the wrapper logic and the message-level specification; model fidelity "
+                 "rests on the translator (type/op tables, user-op registration, every body of the sequential stand-in) and "
+                 "on the differential runs (P<=7, lengths <=5, reductions with user functors up to 5200 elements so that "
+                 "MPI's long-message algorithms run).  The sequential stand-in copies whole objects where MPI copies "
+                 "only the communicated members (IndexPair, ParallelLocalIndex): agreement is claimed and checked on the "
+                 "communicated state.  Known library issue kept out of the generated inputs: Open MPI 4.1 evaluates "
+                 "MPI_MIN/MPI_MAX on MPI_UNSIGNED_LONG with a signed comparison (reproduced with a bare MPI_Allreduce), so "
+                 "unsigned long operands of min/max stay below 2^63.")
+TECHNIQUE = ("Lean 4 proof over cell-level model of typemaps, collectives and MPIPack + translator for the type/op tables, the "
+             "user-op registration and the sequential stand-in + MPI differential correspondence with a fold oracle")
 TRANSLATORS = [tr_c07.translate]
 HARNESS = dict(
     sources=["mpi_c07.cc", "pmpi_sched.cc"],
     mpi=True,
     repo_sources=["dune/common/exceptions.cc", "dune/common/stdstreams.cc"],
+    flags=["-g1"],   # line tables only: a quarter less compile time, sanitizer reports still carry file:line
 )
-RULE = ("cases: collective (sum/prod/min/max/user functor in 7 call forms, broadcast, gather(v), scatter(v), "
-        "allgather(v), barrier; blocking, future-based and scalar forms) on world / MPI_COMM_SELF / sequential "
-        "stand-in x element type {int,long,double,complex,FieldVector<int,3>,bigunsignedint<96>,pair<int,char>,"
-        "IndexPair,ParallelLocalIndex} x root x lengths 0..5 (rank dependent for the v-variants, displacement layouts "
-        "compact/gaps/reversed/overlapping reads) with boundary values; point-to-point rings (isend/recv/rrecv/irecv, "
-        "scalar/vector/string); MPIPack histories (0..6 items: scalar, std::array, vector, string; local, saved "
-        "positions, nested, sent, irecv with reserve, broadcast); decoded MPI typemaps + byte-level transfers; "
-        "distinct = distinct op lines; non-trivial = every case except barriers and refused (unsupported) combinations")
+RULE = ("cases: collective (sum/prod/min/max/user functors incl. associative non-commutative ones in 7 call forms, "
+        "broadcast, gather(v), scatter(v), allgather(v), barrier; blocking, future-based and scalar forms) on world / "
+        "MPI_COMM_SELF / sequential stand-in x element type {int,long,double,complex<double>,FieldVector<int,3>,"
+        "bigunsignedint<96>,pair<int,char>,pair<long long,char>,IndexPair,ParallelLocalIndex; reduced call set: unsigned "
+        "char,short,unsigned short,unsigned,unsigned long,float,long double,complex<float>,complex<long double>,long long,"
+        "POD struct,pair<pair<long long,char>,short>,FieldVector<pair<long long,char>,2>,bigunsignedint<40>} x root x "
+        "lengths 0..5 (2600..5200 for a share of the user-functor reductions; rank dependent for the v-variants, "
+        "displacement layouts compact/gaps/reversed/overlapping reads) with boundary values; point-to-point rings "
+        "(isend/recv/rrecv/irecv, scalar/vector/string, with and without MPI_Status); MPIPack histories (0..6 items: scalar, "
+        "std::array, vector, string; <</>> and write/read; local with resize/enlarge/eof, saved positions, nested, sent, "
+        "irecv with reserve, broadcast); decoded MPI typemaps + byte-level transfers of 1..4 elements (extent = sizeof, "
+        "lb = 0); rank/size/barrier/conversions/refused calls; distinct = distinct op lines; non-trivial = every case "
+        "except barriers and refused (unsupported) combinations")
 ASSUMPTIONS = [
     "MPI (Open MPI) is trusted: transfers move exactly the typemap's blocks, reductions with commutative ops fold the "
-    "contributions in some order/bracketing, MPI_Unpack inverts MPI_Pack, delivery is reliable and pairwise FIFO",
-    "the Lean model lean/DuneVerif/Model/C07.lean is hand-written at cell level (one cell per scalar member); its "
-    "fidelity to mpicommunication.hh / communication.hh / mpipack.hh / mpidata.hh / mpitraits.hh rests on this "
-    "differential run",
-    "reductions are exercised without signed overflow (sums bounded by INT_MAX/8 per rank etc.); doubles hold integers",
+    "contributions in some order/bracketing, with non-commutative ops in rank order with some bracketing, MPI_Unpack "
+    "inverts MPI_Pack, delivery is reliable and pairwise FIFO",
+    "the Lean model lean/DuneVerif/Model/C07.lean is hand-written at cell level (one cell per scalar member); the type and "
+    "op tables, the user-op registration and the bodies of the sequential stand-in are re-translated from the sources on "
+    "every run (lean/DuneVerif/Gen/C07.lean); the rest of its fidelity to mpicommunication.hh / mpipack.hh / mpidata.hh / "
+    "mpitraits.hh rests on this differential run",
+    "reductions are exercised without signed overflow (sums bounded by MAX/8 per rank etc.); floating-point types hold "
+    "integers small enough to be exact; unsigned long operands of min/max stay below 2^63 (Open MPI bug, see note)",
+    "collectives are called within their documented preconditions (matching send/receive counts, non-overlapping gatherv "
+    "segments, root < P)",
     "non-blocking variants are observed after get()/wait(); the future protocol itself belongs to C19",
-    "process counts 1-4 (quick) / 1-7 (thorough), lengths 0..5",
+    "process counts 1-4 (quick) / 1-7 (thorough), lengths 0..5 (user-functor reductions up to 5200)",
 ]
 TRUSTED = ["mpicxx/libstdc++, ASan/UBSan, Open MPI 4.1", "harness/mpi_c07.cc (cell conversion, oracle) + Driver/C07.lean parsing/printing",
-           "harness/pmpi_sched.cc"]
+           "harness/pmpi_sched.cc", "tools/translators/tr_c07.py (statement grammar for the stand-in's bodies)"]
+CORPUS_TIMEOUT = 600
 
 
 def batches(tier, seed):
